@@ -51,7 +51,7 @@ def parse_log(text):
         k = parts[0]
         if k == "mark":
             if parts[1] == "case":
-                cur = {"ops": {-1: []}, "raw_bad": [], "ended": False, "fails": []}
+                cur = {"ops": {-1: []}, "raw_bad": [], "ended": False, "fails": [], "raw": {}}
                 cases[parts[2]] = cur
                 opi = -1
             elif parts[1] == "op" and cur is not None:
@@ -63,6 +63,8 @@ def parse_log(text):
         if cur is None or cur["ended"]:
             continue
         lst = cur["ops"].setdefault(opi, [])
+        if k in ("create", "write", "fsync", "unlink"):
+            cur["raw"][opi] = cur["raw"].get(opi, 0) + 1
         if k == "create":
             flags = int(parts[2], 16)
             if flags & CREATE_FLAGS_REQUIRED != CREATE_FLAGS_REQUIRED:
